@@ -6,6 +6,8 @@
 #include "common/verif.hpp"
 #include <random>
 #include <algorithm>
+#include <limits>
+#include <type_traits>
 #include <AIToolbox/Types.hpp>
 #include <AIToolbox/Seeder.hpp>
 #include <AIToolbox/Utils/Probability.hpp>
@@ -160,7 +162,7 @@ static void emit_sparse(const std::vector<std::vector<double>> & rows, size_t r,
 
 // draws strictly below the row sum by a safe margin (used for the last stored row, where walking
 // off the row is an out-of-bounds read rather than a wrong answer)
-static std::vector<uint64_t> below_sum(const std::vector<uint64_t> & ks, const std::vector<double> & row) {
+[[maybe_unused]] static std::vector<uint64_t> below_sum(const std::vector<uint64_t> & ks, const std::vector<double> & row) {
     double s = 0; for (double v : row) s += v;
     uint64_t lim = k53(s - 1e-9);
     std::vector<uint64_t> out;
@@ -228,6 +230,90 @@ static void emit_rand_raw(Rng & rng, size_t m) {
     l << "|"; l.nums(o); l << e.pos; l.emit();
 }
 
+// The positive numbers the sampler normalises, replayed on a copy of the engine.  As found the code draws
+// Gamma(a_i, 1) directly; with fixes/C08-6 it draws their logarithms through the library's own
+// sampleLogGammaDistribution and divides by the largest one (the normalised result is the same: dirichlet_scale_invariant).
+static std::vector<double> mirrorGammas(const std::vector<double> & params, AI::RandomEngine & mir) {
+    std::vector<double> gs(params.size());
+#ifdef C08_LOG_GAMMA
+    double mx = -std::numeric_limits<double>::infinity();
+    for (size_t i = 0; i < params.size(); ++i) { gs[i] = AI::sampleLogGammaDistribution(params[i], mir); mx = std::max(mx, gs[i]); }
+    for (auto & g : gs) g = std::exp(g - mx);
+#else
+    for (size_t i = 0; i < params.size(); ++i) { std::gamma_distribution<double> d(params[i], 1.0); gs[i] = d(mir); }
+#endif
+    return gs;
+}
+
+// gamma-based samplers, driven by the library's own engine type; a copy of the engine replays the gamma draws
+static void emit_gamma(Rng & rng) {
+    static const double shapes[] = {0.5, 1.0, 2.0, 3.5, 10.0, 0.1, 0.01, 25.0};
+    const unsigned seed = (unsigned)rng.next();
+    AI::RandomEngine eng(seed), mir(seed);
+    if (rng.coin(2, 3)) {
+        const size_t n = (size_t)rng.range(1, 8);
+        std::vector<double> params(n);
+        for (auto & p : params) p = shapes[rng.below(8)];
+        std::vector<double> gs = mirrorGammas(params, mir);
+        // the two-argument overload (returning the vector) does not instantiate: it calls the three-argument one,
+        // which is declared after it and is not found by ADL for std/Eigen argument types (fixes/C08-5)
+#ifdef C08_DIRICHLET_2ARG
+        AI::ProbabilityVector out = AI::sampleDirichletDistribution(params, eng);
+#else
+        AI::ProbabilityVector out(n);
+        AI::sampleDirichletDistribution(params, eng, out);
+#endif
+        std::vector<double> o(out.data(), out.data() + out.size());
+        Line l; l << "C08" << "dir"; l.nums(params); l.nums(gs); l << "|"; l.nums(o); l << (eng == mir); l.emit();
+    } else {
+        const double a = shapes[rng.below(8)], b = shapes[rng.below(8)];
+        const std::vector<double> xy = mirrorGammas({a, b}, mir);
+        const double x = xy[0], y = xy[1];
+        const double r = AI::sampleBetaDistribution(a, b, eng);
+        Line l; l << "C08" << "beta" << a << b << x << y << "|" << r << (eng == mir); l.emit();
+    }
+}
+// small shape parameters: libstdc++ computes Gamma(a<1) as Gamma(a+1) * u^(1/a), which underflows to 0; when every draw is 0
+// the normalisation divides 0 by 0.  The first seed for which that happens is used (about one in five for a = 0.001).
+static void emit_gamma_underflow(bool beta) {
+    for (unsigned seed = 0; seed < 200; ++seed) {
+        AI::RandomEngine eng(seed), mir(seed), probe(seed);
+        std::gamma_distribution<double> da(0.001, 1.0), db(0.001, 1.0);
+        if (da(probe) != 0.0 || db(probe) != 0.0) continue;          // both plain gamma draws underflow for this seed
+        const std::vector<double> xy = mirrorGammas({0.001, 0.001}, mir);
+        const double x = xy[0], y = xy[1];
+        if (beta) {
+            const double r = AI::sampleBetaDistribution(0.001, 0.001, eng);
+            Line l; l << "C08" << "beta" << 0.001 << 0.001 << x << y << "|" << r << (eng == mir); l.emit();
+        } else {
+            std::vector<double> params{0.001, 0.001}, gs{x, y};
+            AI::ProbabilityVector out(2);
+            AI::sampleDirichletDistribution(params, eng, out);
+            std::vector<double> o(out.data(), out.data() + out.size());
+            Line l; l << "C08" << "dir"; l.nums(params); l.nums(gs); l << "|"; l.nums(o); l << (eng == mir); l.emit();
+        }
+        return;
+    }
+    std::printf("#stat gamma_underflow_witness_not_found 1\n");
+}
+// makeRandomProbability through std::mt19937: the draws are read from a copy of the engine
+static void emit_rand_mt(Rng & rng, size_t m) {
+    const unsigned seed = (unsigned)rng.next();
+    AI::RandomEngine eng(seed), mir(seed);
+    std::uniform_real_distribution<double> d(0.0, 1.0);
+    Line l; l << "C08" << "rand" << m; for (size_t i = 0; i < m; ++i) l << d(mir);
+    AI::ProbabilityVector b = AI::makeRandomProbability(m + 1, eng);
+    std::vector<double> o(b.data(), b.data() + b.size());
+    l << "|"; l.nums(o); l << (size_t)(eng == mir ? 2 * m : 0); l.emit();
+}
+// non-finite projection inputs: outside the property's quantifier (documented); must not crash
+static void emit_proj_nonfinite(const std::vector<double> & v) {
+    AI::Vector in(v.size()); for (size_t i = 0; i < v.size(); ++i) in[i] = v[i];
+    AI::ProbabilityVector out = AI::projectToProbability(in);
+    std::vector<double> o(out.data(), out.data() + out.size());
+    Line l; l << "C08" << "projx"; l.nums(v); l << "|"; l.nums(o); l.emit();
+}
+
 // ---------------------------------------------------------------- VoseAliasSampler
 // The table is private; it is reconstructed from behaviour.  For column i the sampler returns i
 // while frac(x) < prob_[i] and alias_[i] afterwards (x = draw from uniform_real(0,n)); the switch
@@ -290,6 +376,14 @@ static T3 genRewards(Rng & rng, size_t S, size_t A) {
     return r;
 }
 
+// stored (column, value) entries of one row of a compressed sparse matrix, in storage order
+static void putEntries(Line & l, const AI::SparseMatrix2D & m, size_t row) {
+    std::vector<Entry> es;
+    for (AI::SparseMatrix2D::InnerIterator it(m, row); it; ++it) es.push_back({(size_t)it.col(), it.value()});
+    l << (size_t)es.size(); for (auto & e : es) { l << e.c; l << e.v; }
+}
+template <class M> constexpr bool isSparseMat = std::is_same_v<std::decay_t<M>, AI::SparseMatrix2D>;
+
 template <class M> static void rowOf(const M & mat, size_t s, std::vector<double> & out) {
     out.clear(); for (long j = 0; j < mat.cols(); ++j) out.push_back(mat.coeff(s, j));
 }
@@ -314,6 +408,10 @@ static void emit_models(Rng & rng, int nsamples) {
                 auto [s1, rew] = pm.sampleSR(s, a);
                 rowOf(pm.getTransitionFunction(a), s, row);
                 Line l; l << "C08" << "sr" << kind; l.nums(row); l << u << pm.getExpectedReward(s, a, 0) << "|" << s1 << rew; l.emit();
+                if constexpr (isSparseMat<decltype(pm.getTransitionFunction(a))>) {   // the scan the code runs: stored entries, reward from the stored table
+                    Line x; x << "C08" << "spsr" << S; putEntries(x, pm.getTransitionFunction(a), s);
+                    x << u << pm.getRewardFunction().coeff(s, a) << "|" << s1 << rew; x.emit();
+                }
             } else if (which == 1) {
                 double u1 = d01(m1), u2 = d01(m2);
                 auto [s1, ob, rew] = pm.sampleSOR(s, a);
@@ -322,12 +420,21 @@ static void emit_models(Rng & rng, int nsamples) {
                 // every observation row the second draw could be applied to
                 l << (size_t)S; for (size_t x = 0; x < S; ++x) { std::vector<double> orow; rowOf(pm.getObservationFunction(a), x, orow); l.nums(orow); }
                 l << u1 << u2 << pm.getExpectedReward(s, a, 0) << "|" << s1 << ob << rew; l.emit();
+                if constexpr (isSparseMat<decltype(pm.getTransitionFunction(a))>) {
+                    Line x; x << "C08" << "spsor" << S << O; putEntries(x, pm.getTransitionFunction(a), s);
+                    x << (size_t)S; for (size_t z = 0; z < S; ++z) putEntries(x, pm.getObservationFunction(a), z);
+                    x << u1 << u2 << pm.getRewardFunction().coeff(s, a) << "|" << s1 << ob << rew; x.emit();
+                }
             } else {
                 size_t s1 = rng.below(S);
                 double u = d01(m2);
                 auto [ob, rew] = pm.sampleOR(s, a, s1);
                 rowOf(pm.getObservationFunction(a), s1, row);
                 Line l; l << "C08" << "sr" << (std::string(kind) + "-obs"); l.nums(row); l << u << pm.getExpectedReward(s, a, s1) << "|" << ob << rew; l.emit();
+                if constexpr (isSparseMat<decltype(pm.getTransitionFunction(a))>) {
+                    Line x; x << "C08" << "spor" << O; putEntries(x, pm.getObservationFunction(a), s1);
+                    x << u << pm.getRewardFunction().coeff(s, a) << "|" << ob << rew; x.emit();
+                }
             }
         }
     };
@@ -344,7 +451,13 @@ static void emit_factored(Rng & rng, int nsamples) {
     auto dy = [&]() { return (double)rng.range(1, 6) / 16.0; };
     const double pf = dy(), pfb = dy(), pd = dy(), pdb = dy(), pl = dy(), pg = dy() + 0.5, pff = dy();
     AI::Seeder::setRootSeed(root);
-    auto model = rng.coin() ? FM::makeSysAdminUniRing(agents, pf, pfb, pd, pdb, pl, pg, pff) : FM::makeSysAdminBiRing(agents, pf, pfb, pd, pdb, pl, pg, pff);
+    // four topologies: the number of parents per feature (and so the shape of the DDN row ids) differs
+    int topo = (int)rng.below(8);
+    if (topo == 7 && !rng.coin(1, 4)) topo = 6;      // the 3x3 torus is large (18 features with 5 parents): keep it rare
+    std::printf("#stat coop_topology_%s 1\n", topo == 6 ? "grid" : topo == 7 ? "torus" : (topo & 1) ? "biring" : "uniring");
+    auto model = topo == 6 ? FM::makeSysAdminGrid(2, (unsigned)rng.range(2, 3), pf, pfb, pd, pdb, pl, pg, pff)
+               : topo == 7 ? FM::makeSysAdminTorus(3, 3, pf, pfb, pd, pdb, pl, pg, pff)   // a torus needs at least 3 per side (2 makes both neighbours the same machine: rejected by DDNGraph)
+               : (topo & 1) ? FM::makeSysAdminBiRing(agents, pf, pfb, pd, pdb, pl, pg, pff) : FM::makeSysAdminUniRing(agents, pf, pfb, pd, pdb, pl, pg, pff);
     AI::Seeder::setRootSeed(root);
     std::mt19937 mir(AI::Seeder::getSeed());
     std::uniform_real_distribution<double> d01(0.0, 1.0);
@@ -354,11 +467,12 @@ static void emit_factored(Rng & rng, int nsamples) {
         for (size_t i = 0; i < S.size(); ++i) s[i] = rng.below(S[i]);
         for (size_t i = 0; i < A.size(); ++i) a[i] = rng.below(A[i]);
         std::vector<double> us; for (size_t i = 0; i < S.size(); ++i) us.push_back(d01(mir));
-        AI::Factored::State s1; double rew = 0.0;
-        if (rng.coin()) { auto res = model.sampleSR(s, a); s1 = std::get<0>(res); rew = std::get<1>(res); }
+        AI::Factored::State s1; double rew = 0.0; std::vector<double> rewsOut;
+        const bool srs = !rng.coin();
+        if (!srs) { auto res = model.sampleSR(s, a); s1 = std::get<0>(res); rew = std::get<1>(res); }
         else {   // sampleSRs: per-basis rewards, summed here in basis order as getValue does
             auto res = model.sampleSRs(s, a); s1 = std::get<0>(res);
-            const auto & rews = std::get<1>(res); for (long i = 0; i < rews.size(); ++i) rew += rews[i];
+            const auto & rews = std::get<1>(res); for (long i = 0; i < rews.size(); ++i) { rew += rews[i]; rewsOut.push_back(rews[i]); }
         }
         Line l; l << "C08" << "fsr" << (size_t)S.size();
         for (size_t i = 0; i < S.size(); ++i) {
@@ -367,6 +481,24 @@ static void emit_factored(Rng & rng, int nsamples) {
             l.nums(row);
         }
         l.nums(us); l << model.getExpectedReward(s, a, s1) << "|"; l.nats(s1); l << rew; l.emit();
+        // exact tie of the whole composition: graph (parent sets), every transition matrix, every reward basis
+        if (t < (topo >= 6 ? 1 : 2)) {
+            Line x; x << "C08" << "coop" << (srs ? "srs" : "sr"); x.nats(S); x.nats(A);
+            const auto & ps = model.getGraph().getParentSets();
+            x << (size_t)ps.size();
+            for (size_t i = 0; i < ps.size(); ++i) {
+                x.nats(ps[i].agents); x << (size_t)ps[i].features.size(); for (auto & f : ps[i].features) x.nats(f);
+                const auto & m = model.getTransitionFunction().transitions[i];
+                x << (size_t)m.rows(); for (long r = 0; r < m.rows(); ++r) { std::vector<double> row; rowOf(m, (size_t)r, row); x.nums(row); }
+            }
+            const auto & bases = model.getRewardFunction().bases;
+            x << (size_t)bases.size();
+            for (auto & b : bases) {
+                x.nats(b.tag); x.nats(b.actionTag);
+                x << (size_t)b.values.rows(); for (long r = 0; r < b.values.rows(); ++r) { std::vector<double> row; rowOf(b.values, (size_t)r, row); x.nums(row); }
+            }
+            x.nats(s); x.nats(a); x.nums(us); x << "|"; x.nats(s1); x << rew; x.nums(rewsOut); x << model.getTransitionProbability(s, a, s1); x.emit();
+        }
     }
 }
 
@@ -396,7 +528,7 @@ static void emit_sparse_model_witness() {
 }
 
 // ---------------------------------------------------------------- cases
-static const long kWitness = 15;
+static const long kWitness = 22;
 
 // exhaustive small scope: every vector k/8 with 2..4 entries (zeros anywhere, mass anywhere)
 static std::vector<std::vector<double>> g_small;
@@ -435,6 +567,20 @@ static void witness(Rng & rng, long idx) {
         case 9: emit_vose(rng, {0.125, 0.25, 0.125, 0.5}, 8); break;
         case 10: emit_rand({TWO53 / 2, TWO53 / 4, TWO53 / 4, 0, TWO53 - 1}); break;
         case 12: emit_sparse_model_witness(); break;
+        case 15: emit_vose(rng, {0.1, 0.1, 0.35, 0.45}, 8); break;               // minimal failing input of the seeded change `small = smallCheckpoint + 1` -> `++small`
+        case 16: emit_proj_nonfinite({std::numeric_limits<double>::quiet_NaN(), 0.5}); break;
+        case 17: emit_proj_nonfinite({std::numeric_limits<double>::infinity(), 0.5, -1.0}); break;
+        case 18: emit_proj({1.7e308, 3e307, -1.0, 0.0}); break;                   // overflow with a negative and a zero entry
+        case 19: {   // does the overload returning the sampled vector instantiate? (tools/props/c08.py defines the macro when the header declares the 3-argument overload first)
+#ifdef C08_DIRICHLET_2ARG
+            Line l; l << "C08" << "inst" << "sampleDirichletDistribution(params,generator)" << 1; l.emit();
+#else
+            Line l; l << "C08" << "inst" << "sampleDirichletDistribution(params,generator)" << 0; l.emit();
+#endif
+            break;
+        }
+        case 20: emit_gamma_underflow(false); break;                             // Dirichlet(0.001, 0.001): both gamma draws underflow to 0 -> NaN
+        case 21: emit_gamma_underflow(true); break;                              // Beta(0.001, 0.001) likewise
         case 14: emit_proj({1e308, 1e308}); break;                               // finite input whose sum overflows a double
         case 13: {                                                               // sparse: the same draw on the LAST stored row: the scan leaves the arrays
             std::vector<std::vector<double>> rows{{0.5, 0.5 - e21, 0.0}};
@@ -462,7 +608,7 @@ void verif::verif_case(Rng & rng, long idx, const std::string & tier) {
     idx -= (long)g_small.size();
     const bool thorough = tier == "thorough";
     const size_t maxN = thorough ? 64 : 12;
-    int fam = (int)((idx - kWitness) % 9);
+    int fam = (int)((idx - kWitness) % 10);
     size_t n = (size_t)rng.range(1, rng.coin(3, 4) ? 8 : (long)maxN);
     int shape = 0;
     switch (fam) {
@@ -479,7 +625,6 @@ void verif::verif_case(Rng & rng, long idx, const std::string & tier) {
             size_t r = rng.below(R);
             std::printf("#stat sparse_shape%d 1\n#stat sparse_%s 1\n", shape, r + 1 == R ? "lastrow" : "innerrow");
             auto ks = sweep(rng, rows[r], 6);
-            if (r + 1 == R) ks = below_sum(ks, rows[r]);
             if (!ks.empty()) emit_sparse(rows, r, ks);
             break;
         }
@@ -493,7 +638,7 @@ void verif::verif_case(Rng & rng, long idx, const std::string & tier) {
             size_t m = (size_t)rng.range(0, (long)maxN);
             std::vector<uint64_t> ks(m);
             int mode = (int)rng.below(5);
-            if (mode == 4) { std::printf("#stat rand_mode4 1\n"); emit_rand_raw(rng, m); break; }
+            if (mode == 4) { std::printf("#stat rand_mode4 1\n"); if (rng.coin()) emit_rand_raw(rng, m); else emit_rand_mt(rng, m); break; }
             for (auto & k : ks) k = mode == 0 ? (rng.next() >> 11) : mode == 1 ? (rng.below(9) * (TWO53 / 8)) : mode == 2 ? rng.below(4) : TWO53 - 1 - rng.below(4);
             for (auto & k : ks) if (k >= TWO53) k = TWO53 - 1;
             std::printf("#stat rand_mode%d 1\n", mode);
@@ -520,6 +665,7 @@ void verif::verif_case(Rng & rng, long idx, const std::string & tier) {
             emit_isprob(v);
             break;
         }
+        case 8: emit_gamma(rng); emit_gamma(rng); std::printf("#stat gamma 1\n"); break;
         case 6: emit_models(rng, thorough ? 12 : 8); std::printf("#stat models 1\n"); break;
         default: emit_factored(rng, thorough ? 8 : 4); std::printf("#stat factored_models 1\n"); break;
     }
